@@ -5,7 +5,7 @@
 (* A path is a sequence of names below the sandbox root (Root = <<>>,      *)
 (* which always exists, is a directory and is foreign).  A file system     *)
 (* value is a function whose DOMAIN is the set of paths that exist:        *)
-(*   fs[p] = [t |-> "dir"]  or  [t |-> "file", c, sz, mt]                  *)
+(*   fs[p] = [t |-> "dir"]  or  [t |-> "file", c, sz, mt]  or  [t |-> "pin"]  *)
 (* c = abstract content id, sz = size, mt = logical modification time.     *)
 (***************************************************************************)
 EXTENDS Naturals, Sequences, FiniteSets
@@ -55,7 +55,8 @@ SeqToSet(s) == {s[i] : i \in DOMAIN s}
 NoDup(s) == Cardinality(SeqToSet(s)) = Len(s)
 
 (* snapshot entries (from the harness) -> file system value *)
-NodeOfEntry(e) == IF e.t = "dir" THEN DirNode ELSE FileNode(e.c, e.sz, e.mt)
+PinNode == [t |-> "pin"]       \* a dangling symbolic link: not a file, not a directory, but an entry of its directory
+NodeOfEntry(e) == IF e.t = "dir" THEN DirNode ELSE IF e.t = "pin" THEN PinNode ELSE FileNode(e.c, e.sz, e.mt)
 FsOf(es) == [p \in {es[i].p : i \in DOMAIN es} |->
                NodeOfEntry(es[CHOOSE i \in DOMAIN es : es[i].p = p])]
 
